@@ -268,7 +268,9 @@ def directed_inverted(ctx, judge):
     for _ in range(2):  # second run = reproduction
         summ, rows, _ = replay_file(ctx, path, T, "inverted", workers=1)
     for row in rows:
-        if row["r"] == "mismatch" and row.get("kind") == "verdict" and row["step"] == 1 and row["clause"] == "class":
+        if row["r"] == "mismatch" and row["step"] == 1 and row["clause"] == "class":
+            if not row["act"].startswith("res=ok"):
+                continue  # rejected (any error class): the writer failed to open, as the property asks
             ctx.report(SIG_INVERTED,
                        "OpenWriter{Start: 2, End: 1} on a DB holding [2,4) succeeds: domain.WriterConfig.Validate builds "
                        "its validator but returns nil, and OverlapsWith of the inverted range [2,1) misses [2,4)",
